@@ -26,6 +26,7 @@ CLAUSE = CLAUSE + (' The page walk enters a page at subno_max when walking backw
 CLAUSE = CLAUSE + (' highlight() stores the forward and the backward resume position on every path; the case of vbi_search_next() for a completed pass forgets the direction.')
 CLAUSE = CLAUSE + (" In front of the walk loop a start subpage beyond the cached subpages of the start page is moved next to the "
                    "nearest one in the direction of travel (otherwise the first step leaves the start page and it is never searched).")
+CLAUSE = CLAUSE + (" Inside the walk loop the subpage number only moves by one step of the walk direction or to the far end of the page entered.")
 NOT_DECIDED = ("that exactly the matching pages are found, in order, each once (values); the regex engine's matching semantics; "
                "haystack construction.")
 
@@ -103,9 +104,54 @@ def run(ctx, run):
     _finished_pass_rearms(ctx, run, nxt, sw[0])
     _highlight_sets_both_resume_positions(ctx, run, P.need("highlight", SEARCH))
     _walk_starts_inside_start_page(ctx, run, walk)
+    _walk_steps_every_subpage(ctx, run, walk)
     # the walk visits the subpage range the statistics recorded: the range must not be truncated (shared with C10)
     from . import C10
     C10._subno_range_fits(ctx, run)
+
+
+def _walk_steps_every_subpage(ctx, run, f):
+    """Inside the walk loop the subpage number moves by exactly one step of the walk direction, or is set to the far
+    end of the page just entered.  Any other adjustment (skipping 'impossible' numbers, larger strides) passes over
+    subpages that may be cached - hex-numbered pages use every subcode - and matches on them are never found."""
+    run.touch(f)
+    sub = f.params[3]["name"]
+    dirp = f.params[4]["name"]
+    in_loop = set()
+    for h, body in loops.natural_loops(f).items():
+        in_loop |= body
+    n = 0
+    for bid, i in flow.all_events(f):
+        if bid not in in_loop:
+            continue
+        for lhs, var, op, rhs in flow.stores(f, i):
+            if lhs is None:
+                continue
+            l = f.exprs[ex.skip(f, lhs)]
+            if not (l["k"] == "ref" and l.get("name") == sub):
+                continue
+            n += 1
+            ok = False
+            if rhs is not None:
+                r = f.exprs[ex.skip(f, rhs)]
+                while r["k"] == "cast" and r.get("c"):
+                    r = f.exprs[ex.skip(f, r["c"][0])]
+                if op == "+=" and r["k"] == "ref" and r.get("name") == dirp:
+                    ok = True
+                elif op == "=" and r["k"] == "mem" and r["member"] in ("subno_min", "subno_max"):
+                    ok = True
+                elif op == "=" and r["k"] == "bin" and r["op"] == "+":
+                    names = {f.exprs[ex.skip(f, c)].get("name") for c in r["c"]}
+                    ok = names == {sub, dirp}
+            key = "RF-WHO:%s:subno-step@%d" % (f.name, n)
+            if ok:
+                run.holds("RF-WHO", key, "`%s` steps the subpage number by the walk direction or enters a page at its end" % ex.pretty(f, i)[:50], ex.loc(f, i))
+            else:
+                run.violation("RF-WHO", key, "inside the walk loop `%s` moves the subpage number by something other than one step of the "
+                              "walk direction: cached subpages in between (every subcode is possible on hex-numbered pages) are never "
+                              "visited, matches on them are not found" % ex.pretty(f, i)[:60], ex.loc(f, i),
+                              witness={"function": f.name, "store": ex.pretty(f, i)})
+    run.floor("stores to the subpage number inside the walk loop", n, 3)
 
 
 def _walk_starts_inside_start_page(ctx, run, f):
